@@ -16,7 +16,7 @@ LEVEL = "model_checking"
 TECHNIQUE = "TLA+ cluster spec, TLC exhaustive + negative controls; live-cluster histories validated against the spec by trace validation"
 
 def run(ctx):
-    vlib.tlc_mc(ctx, "MCCluster", "Cluster_c38_mc.cfg", coverage=ctx.thorough, heap="16g", timeout=3000, vacuity_ok=("Restart",))
+    vlib.tlc_mc(ctx, "MCCluster", "Cluster_c38_mc.cfg", coverage=ctx.thorough, heap="16g", timeout=3000, vacuity_ok=("Restart", "TakeSnapshot", "InstallSnapshot"))
     vlib.tlc_neg(ctx, "MCCluster", "Cluster_neg_SignalConfig.cfg", expect="NoStuckRead", heap="8g")
     vlib.tlc_neg(ctx, "MCCluster", "Cluster_neg_SignalBarrier.cfg", expect="NoStuckRead", heap="8g")
     if ctx.thorough:
